@@ -56,6 +56,12 @@ pub enum Op {
     CopyContent(u16, u16, u16),
     /// the same with the case's hot file as the source
     HotCopy(u16, u16),
+    /// `git pack-refs --all` (what `git gc` does to the branch refs)
+    PackRefs,
+    /// `git checkout -- <path>`: a tracked file that was deleted or modified is put back as staged
+    Restore(u16),
+    /// `git rm --cached <path>`: a tracked file leaves the index but stays in the work tree
+    RmCached(u16),
 }
 
 pub const BIG_SIZES: [usize; 9] = [
@@ -344,6 +350,32 @@ impl Hist {
             Op::CommitStaged => {
                 self.commit_staged()?;
                 "commit staged".into()
+            }
+            Op::PackRefs => {
+                self.env.git_ok(&["pack-refs", "--all"])?;
+                "pack-refs".into()
+            }
+            Op::Restore(f) => {
+                // (never monorail's own files under the out directory, when that is not ignored)
+                let cands: Vec<String> = self.index.keys().filter(|p| !p.starts_with("monorail-out/") && self.work.get(*p) != self.index.get(*p)).cloned().collect();
+                if cands.is_empty() {
+                    return Ok("noop".into());
+                }
+                let p = cands[pick(*f, cands.len())].clone();
+                self.env.git_ok(&["checkout", "--", &p])?;
+                let c = self.index[&p].clone();
+                self.work.insert(p.clone(), c);
+                format!("restore {:?}", p)
+            }
+            Op::RmCached(f) => {
+                let cands: Vec<String> = self.index.keys().filter(|p| !p.starts_with("monorail-out/") && self.work.contains_key(*p)).cloned().collect();
+                if cands.is_empty() {
+                    return Ok("noop".into());
+                }
+                let p = cands[pick(*f, cands.len())].clone();
+                self.env.git_ok(&["rm", "--cached", "-q", "--", &p])?;
+                self.index.remove(&p);
+                format!("rm --cached {:?}", p)
             }
             Op::CommitAll => {
                 self.commit_all()?;
